@@ -395,7 +395,7 @@ func illConditionedWith(c *Case, impl, ref Canon, mk func(EngineCfg) queryMaker)
 	}
 	cfg := c.Cfg()
 	moved, _ := runQuery(mk(cfg), NewStore(pert), cfg, c.Query, c.Window)
-	if diffCanon(moved, ref, false) != "" {
+	if diffCanon(moved, ref, false) != "" && explainedBy(impl, ref, moved) {
 		return true
 	}
 	// ... or when the same samples are summed in another order (the storage returns the
@@ -411,11 +411,44 @@ func illConditionedWith(c *Case, impl, ref Canon, mk func(EngineCfg) queryMaker)
 			}
 		}
 		other, _ := runQuery(mk(cfg), NewStore(re), cfg, c.Query, c.Window)
-		if d := diffCanon(other, ref, false); d != "" && other.Kind == ref.Kind && len(other.Series) == len(ref.Series) {
+		if d := diffCanon(other, ref, false); d != "" && other.Kind == ref.Kind && len(other.Series) == len(ref.Series) && explainedBy(impl, ref, other) {
 			return true
 		}
 	}
 	return false
+}
+
+// explainedBy: [moved] is the reference's result on minutely perturbed (or reordered) data. The
+// difference between impl and ref counts as a matter of conditioning only where it is of the size
+// of what the perturbation did to the reference's own result (times 1e4): a result that the
+// perturbation moves by 1e-13 does not excuse a difference of 1.5. A perturbation that changes the
+// shape of the result (a comparison flipping) or its NaN/Inf pattern at a point excuses that point.
+func explainedBy(impl, ref, moved Canon) bool {
+	if moved.Kind != ref.Kind || len(moved.Series) != len(ref.Series) {
+		return true
+	}
+	for i := range ref.Series {
+		x, y, m := impl.Series[i], ref.Series[i], moved.Series[i]
+		if m.Key != y.Key || len(m.Points) != len(y.Points) {
+			return true
+		}
+		for j := range y.Points {
+			a, b, mv := x.Points[j].V, y.Points[j].V, m.Points[j].V
+			if floatEq(a, b, false) {
+				continue
+			}
+			if math.IsNaN(mv) != math.IsNaN(b) || math.IsInf(mv, 0) != math.IsInf(b, 0) {
+				continue
+			}
+			if math.IsNaN(a) || math.IsNaN(b) || math.IsInf(a, 0) || math.IsInf(b, 0) {
+				return false
+			}
+			if math.Abs(a-b) > 1e4*math.Abs(mv-b) {
+				return false
+			}
+		}
+	}
+	return true
 }
 
 // varianceConditioning: the query is a stddev/stdvar at the top level and the
